@@ -17,7 +17,8 @@ CONSTANTS MaxActions, MaxConns, Emit
 
 (* adapters *)
 Prefixes == { [k |-> "prefix", segs |-> <<"p">>, trail |-> FALSE], [k |-> "prefix", segs |-> <<"q", "r">>, trail |-> TRUE] }
-Resps    == { [k |-> "resp", tag |-> "R1"], [k |-> "resp", tag |-> "R2"] }
+Resps    == { [k |-> "resp", tag |-> "R1"], [k |-> "resp", tag |-> "R2"], [k |-> "resp", tag |-> "Z0"] }
+              \* R1, R2 append their tag to the value; Z0 replaces the value by the empty list (a processor result that is falsy)
 Hdrs     == { [k |-> "hdr", name |-> "X-A", val |-> "1"] }
 Plain    == Prefixes \cup Resps \cup Hdrs
 Auths    == { [k |-> "basic", user |-> "joe", pw |-> "s:~ ?>"], [k |-> "token", tok |-> "T0K"],
@@ -54,13 +55,17 @@ AuthOf(ads) == IF HasAuth(ads) THEN ads[CHOOSE i \in 1 .. Len(ads) : IsAuth(ads[
 RECURSIVE RespTags(_)
 (* response processors run in reverse adapter order: innermost first *)
 RespTags(ads) == IF ads = <<>> THEN <<>>
-                 ELSE RespTags(Tail(ads)) \o (IF Head(ads).k = "resp" THEN <<Head(ads).tag>> ELSE <<>>)
+                 ELSE IF Head(ads).k # "resp" THEN RespTags(Tail(ads))
+                 ELSE IF Head(ads).tag = "Z0" THEN <<>>
+                 ELSE RespTags(Tail(ads)) \o <<Head(ads).tag>>
+(* some processor replaced the value: nothing of the original response is left in the result *)
+RespCut(ads) == \E i \in 1 .. Len(ads) : ads[i].k = "resp" /\ ads[i].tag = "Z0"
 ExtraHdrs(ads) == { <<ads[i].name, ads[i].val>> : i \in { j \in 1 .. Len(ads) : ads[j].k = "hdr" } }
 Expected(c) == [addr |-> conns[c].addr, segs |-> PathSegs(conns[c].ads, <<"x">>), rel |-> PathRel(conns[c].ads, <<"x">>, FALSE), auth |-> AuthOf(conns[c].ads),
-                resp |-> RespTags(conns[c].ads), hdrs |-> ExtraHdrs(conns[c].ads)]
+                resp |-> RespTags(conns[c].ads), respcut |-> RespCut(conns[c].ads), hdrs |-> ExtraHdrs(conns[c].ads)]
 AllExpected(cs) == [c \in 1 .. Len(cs) |->
                       [addr |-> cs[c].addr, segs |-> PathSegs(cs[c].ads, <<"x">>), rel |-> PathRel(cs[c].ads, <<"x">>, FALSE), auth |-> AuthOf(cs[c].ads),
-                       resp |-> RespTags(cs[c].ads), hdrs |-> ExtraHdrs(cs[c].ads)]]
+                       resp |-> RespTags(cs[c].ads), respcut |-> RespCut(cs[c].ads), hdrs |-> ExtraHdrs(cs[c].ads)]]
 
 (* ---------------- actions ---------------- *)
 Init == conns = <<>> /\ callers = <<>> /\ hist = <<>> /\ nact = 0
